@@ -189,6 +189,9 @@ class POutputDispatcher(PDispatcher):
                 config.options.logger.log(
                     self.mainlog_level, msg, name=config.name,
                     channel=self.channel, data=text)
+            if self.capturemode:
+                # PROCESS_LOG events are not emitted in capture mode
+                return
             if self.channel == 'stdout':
                 if self.stdout_events_enabled:
                     notify(
